@@ -1,9 +1,12 @@
 package main
 
 import (
+	"bytes"
 	"fmt"
 	"go/ast"
 	"go/importer"
+	"go/parser"
+	"go/printer"
 	"go/types"
 	"sort"
 	"strings"
@@ -205,6 +208,52 @@ func canonicalise(pkgs map[string]*packages.Package) ([]string, error) {
 			})
 		}
 	}
+	if err := recheck(pkgs); err != nil {
+		return nil, err
+	}
+	sort.Strings(notes)
+	return notes, nil
+}
+
+type importerFunc func(path string) (*types.Package, error)
+
+func (f importerFunc) Import(path string) (*types.Package, error) { return f(path) }
+
+type pinnedStruct struct {
+	pkg, name string
+	fields    [][2]string // name, type string
+}
+
+// dumpStructs prints the struct table of the loaded module.
+func dumpStructs(pkgs []*packages.Package) {
+	q := func(p *types.Package) string { return p.Path() }
+	for _, p := range pkgs {
+		var names []string
+		for _, nm := range p.Types.Scope().Names() {
+			names = append(names, nm)
+		}
+		sort.Strings(names)
+		for _, nm := range names {
+			tn, ok := p.Types.Scope().Lookup(nm).(*types.TypeName)
+			if !ok {
+				continue
+			}
+			s, ok := tn.Type().Underlying().(*types.Struct)
+			if !ok || s.NumFields() == 0 {
+				continue
+			}
+			fmt.Printf("\t{%q, %q, [][2]string{", p.PkgPath, nm)
+			for i := 0; i < s.NumFields(); i++ {
+				fmt.Printf("{%q, %q}, ", s.Field(i).Name(), types.TypeString(s.Field(i).Type(), q))
+			}
+			fmt.Printf("}},\n")
+		}
+	}
+}
+
+// recheck type-checks the module's packages again (after their syntax trees
+// were edited by a normalising pre-pass), in dependency order.
+func recheck(pkgs map[string]*packages.Package) error {
 	// type-check the module's packages again, in dependency order
 	order := []string{pathRoot, pathW, pathCmd}
 	checked := map[string]*types.Package{}
@@ -248,47 +297,126 @@ func canonicalise(pkgs map[string]*packages.Package) ([]string, error) {
 		conf := types.Config{Importer: imp, GoVersion: p.Types.GoVersion()}
 		tp, err := conf.Check(path, p.Fset, p.Syntax, info)
 		if err != nil {
-			return nil, fmt.Errorf("re-checking %s after canonical renaming: %v", path, err)
+			return fmt.Errorf("re-checking %s after canonical renaming: %v", path, err)
 		}
 		checked[path] = tp
 		p.Types, p.TypesInfo = tp, info
 	}
-	sort.Strings(notes)
-	return notes, nil
+	return nil
 }
 
-type importerFunc func(path string) (*types.Package, error)
-
-func (f importerFunc) Import(path string) (*types.Package, error) { return f(path) }
-
-type pinnedStruct struct {
-	pkg, name string
-	fields    [][2]string // name, type string
-}
-
-// dumpStructs prints the struct table of the loaded module.
-func dumpStructs(pkgs []*packages.Package) {
-	q := func(p *types.Package) string { return p.Path() }
-	for _, p := range pkgs {
-		var names []string
-		for _, nm := range p.Types.Scope().Names() {
-			names = append(names, nm)
+// Specialising pre-pass. A refactoring that extracts a helper used from two
+// or three places must not hide from the rules what each caller does. Helpers
+// with ONE call site are already analysed as part of their caller (Ctx.link).
+// A function that the pinned tree does not know (so no rule names it), is
+// unexported, is never used as a value, is not recursive and has 2–4 call
+// sites is therefore duplicated once per additional call site (the copies are
+// parsed from the printed declaration, appended to the same file and the call
+// sites redirected), after which every copy has one call site and is linked.
+// Pure normalisation: the program analysed has the same behaviour.
+func specialise(pkgs map[string]*packages.Package) ([]string, error) {
+	known := map[string]bool{}
+	for _, a := range anchorSigs {
+		known[a[0]+"::"+a[1]] = true
+	}
+	var notes []string
+	for _, path := range []string{pathRoot, pathW, pathCmd} {
+		p := pkgs[path]
+		if p == nil {
+			continue
 		}
-		sort.Strings(names)
-		for _, nm := range names {
-			tn, ok := p.Types.Scope().Lookup(nm).(*types.TypeName)
-			if !ok {
+		type cand struct {
+			decl *ast.FuncDecl
+			file *ast.File
+			obj  *types.Func
+		}
+		var cands []cand
+		for _, f := range p.Syntax {
+			for _, d := range f.Decls {
+				fd, ok := d.(*ast.FuncDecl)
+				if !ok || fd.Recv != nil || fd.Body == nil || fd.Type.TypeParams != nil {
+					continue
+				}
+				obj, _ := p.TypesInfo.Defs[fd.Name].(*types.Func)
+				if obj == nil || obj.Exported() || known[path+"::"+obj.Name()] || obj.Name() == "main" || obj.Name() == "init" {
+					continue
+				}
+				cands = append(cands, cand{fd, f, obj})
+			}
+		}
+		for _, cd := range cands {
+			var sites []*ast.Ident
+			values, recursive := 0, false
+			for _, f := range p.Syntax {
+				var stack []ast.Node
+				ast.Inspect(f, func(n ast.Node) bool {
+					if n == nil {
+						stack = stack[:len(stack)-1]
+						return true
+					}
+					stack = append(stack, n)
+					id, ok := n.(*ast.Ident)
+					if !ok || p.TypesInfo.Uses[id] != types.Object(cd.obj) {
+						return true
+					}
+					// operand of a call?
+					k := len(stack) - 2
+					var fun ast.Node = id
+					for k >= 0 {
+						if pe, ok := stack[k].(*ast.ParenExpr); ok {
+							fun = pe
+							k--
+							continue
+						}
+						break
+					}
+					if call, ok := stack[k].(*ast.CallExpr); ok && call.Fun == fun {
+						sites = append(sites, id)
+					} else {
+						values++
+					}
+					for _, anc := range stack {
+						if anc == ast.Node(cd.decl) {
+							recursive = true
+						}
+					}
+					return true
+				})
+			}
+			if values > 0 || recursive || len(sites) < 2 || len(sites) > 4 {
 				continue
 			}
-			s, ok := tn.Type().Underlying().(*types.Struct)
-			if !ok || s.NumFields() == 0 {
-				continue
+			orig := cd.decl.Name.Name
+			for k := 1; k < len(sites); k++ {
+				name := fmt.Sprintf("%s__s%d", orig, k+1)
+				cd.decl.Name.Name = name
+				var buf bytes.Buffer
+				buf.WriteString("package " + p.Types.Name() + "\n\n")
+				err := printer.Fprint(&buf, p.Fset, &ast.FuncDecl{Name: cd.decl.Name, Type: cd.decl.Type, Body: cd.decl.Body})
+				cd.decl.Name.Name = orig
+				if err != nil {
+					return nil, fmt.Errorf("printing %s: %v", orig, err)
+				}
+				nf, err := parser.ParseFile(p.Fset, fmt.Sprintf("%s/specialised_%s.go", p.Fset.Position(cd.decl.Pos()).Filename, name), buf.Bytes(), 0)
+				if err != nil {
+					return nil, fmt.Errorf("re-parsing the copy of %s: %v", orig, err)
+				}
+				for _, d := range nf.Decls {
+					if fd, ok := d.(*ast.FuncDecl); ok {
+						cd.file.Decls = append(cd.file.Decls, fd)
+					}
+				}
+				sites[k].Name = name
 			}
-			fmt.Printf("\t{%q, %q, [][2]string{", p.PkgPath, nm)
-			for i := 0; i < s.NumFields(); i++ {
-				fmt.Printf("{%q, %q}, ", s.Field(i).Name(), types.TypeString(s.Field(i).Type(), q))
-			}
-			fmt.Printf("}},\n")
+			notes = append(notes, fmt.Sprintf("helper %s (not in the pinned tree, %d call sites) analysed once per call site", orig, len(sites)))
 		}
 	}
+	if len(notes) == 0 {
+		return nil, nil
+	}
+	if err := recheck(pkgs); err != nil {
+		return nil, err
+	}
+	sort.Strings(notes)
+	return notes, nil
 }
